@@ -288,7 +288,7 @@ impl Builder {
     /// Create a [crate::insim::Isi] from this configuration.
     pub fn isi(&self) -> Isi {
         let udpport = match self.proto {
-            Proto::Udp => self.udp_local_address.unwrap().port(),
+            Proto::Udp => self.udp_local_address.map_or(0, |addr| addr.port()),
             _ => 0,
         };
 
